@@ -21,7 +21,7 @@ PROP = 'C15'
 MANIFEST = dict(
     category='exploration', design_ref='DESIGN.md §3 C15',
     technique='bounded-exhaustive enumeration of hypernym graphs x lexicalisations x corpora x flags on the real wn.ic.compute/load vs a reference written from the documented semantics',
-    text='For every labelled DAG on up to 4 nodes and every cyclic digraph on up to 3 nodes (with self-loops), in an all-noun and an adjective/satellite colouring, and for every corpus that is a multiset of up to 3 tokens over {a word of one synset, a word of two synsets, a multi-word lemma, an unknown word}, wn.ic.compute is run with distribute_weight on/off and smoothing 1.0 / 0.5 / 0.0 and compared with the reference: per part of speech the total is smoothing + the sum of the (optionally evenly distributed) counts of known words, each synset gets smoothing + that weight for every word synset that is the synset itself or one of its distinct hypernym ancestors - once per word synset however many paths converge; derived obligations (weights never decrease going up, synset_probability in (0,1], information_content >= 0 and not larger for a hypernym, unknown words ignored, satellites counted as adjectives - also through synset_probability / information_content) are checked on every synset. the DAGs (thorough: all digraphs n<=3) are also presented in expanded mode - the graph borrowed from an expand lexicon, only a subset of the nodes stored in the queried lexicon, ancestors reached through *INFERRED* placeholders that have no table entry of their own; load() is compared with the expected structure for every subset of lines and every ROOT-flag placement of generated weight files.',
+    text='For every labelled DAG on up to 4 nodes and every cyclic digraph on up to 3 nodes (with self-loops), in an all-noun and an adjective/satellite colouring, and for every corpus that is a multiset of up to 3 tokens over {a word of one synset, a word of two synsets, a multi-word lemma, an unknown word}, wn.ic.compute is run with distribute_weight on/off and smoothing 1.0 / 0.5 / 0.0 and compared with the reference: per part of speech the total is smoothing + the sum of the (optionally evenly distributed) counts of known words, each synset gets smoothing + that weight for every word synset that is the synset itself or one of its distinct hypernym ancestors - once per word synset however many paths converge; derived obligations (weights never decrease going up, synset_probability in (0,1], information_content >= 0 and not larger for a hypernym, unknown words ignored, satellites counted as adjectives - also through synset_probability / information_content) are checked on every synset. the DAGs (thorough: all digraphs n<=3) are also presented in expanded mode - the graph borrowed from an expand lexicon, only a subset of the nodes stored in the queried lexicon, ancestors reached through *INFERRED* placeholders that have no table entry of their own; load() is compared with the expected structure for every subset of lines and every ROOT-flag placement of generated weight files. Colourings with parts of speech that take no part in the counts (c, p, x, u) next to countable ones on the ambiguous word (hypernym edges inside one part of speech only).',
     note='Corpus tokens are exact lemmas (form search itself is C09). Floats compared with 1e-9 tolerance.',
 )
 
